@@ -312,6 +312,9 @@ def check_invalid_norm(x):
 
 
 def replay(rep):
+    if rep['replay'].get('protocol') == 'values_only':
+        from props import _purity
+        return _purity.replay_protocol(rep['replay'])
     r = rep['replay']; fn = r.get('function')
     def vec(name):
         v = r.get(name)
@@ -548,3 +551,7 @@ def run(ctx):
             report(check_acorr_consistency(x, m), rep_of('acorr_consistency', x, m=m))
         if it % 50 == 0:
             report(check_invalid_norm(x), rep_of('invalid_norm', x))
+
+    # ---------------- results depend on the VALUES given only: call protocol (repeat, aliasing, buffer reuse, memory layout, integer / single-precision dtypes)
+    from props import _purity
+    _purity.run_protocol(ctx, ['CORRELATION', 'CORRELATION_xy', 'xcorr', 'corrmtx_covariance', 'corrmtx_modified', 'corrmtx_autocorrelation'])
